@@ -79,12 +79,14 @@ func TooManyHangs() bool { return Hangs.Load() >= 3 }
 
 // Session is one client instance on one scripted transport; several calls can be made on it.
 type Session struct {
-	Kind int
-	Conn *xport.Conn
-	rt   time.Duration
-	dl   time.Duration
-	exp  bool
-	do   func(ctx context.Context, req packet.Request) (packet.Response, error)
+	// NextDeadline > 0: the next Do (only that one) is made with a context that expires after this long.
+	NextDeadline time.Duration
+	Kind         int
+	Conn         *xport.Conn
+	rt           time.Duration
+	dl           time.Duration
+	exp          bool
+	do           func(ctx context.Context, req packet.Request) (packet.Response, error)
 }
 
 // NewSession creates the client (connected, for the network kinds).
@@ -160,9 +162,13 @@ func (s *Session) Do(req packet.Request, script xport.Script) Outcome {
 	ctx, cancelCause := context.WithCancelCause(context.Background())
 	cancel := func() { cancelCause(errAppCause) }
 	defer cancel()
-	if s.dl > 0 {
+	dl := s.dl
+	if s.NextDeadline > 0 {
+		dl, s.NextDeadline = s.NextDeadline, 0
+	}
+	if dl > 0 {
 		var c2 context.CancelFunc
-		ctx, c2 = context.WithTimeout(ctx, s.dl)
+		ctx, c2 = context.WithTimeout(ctx, dl)
 		defer c2()
 	}
 	if s.exp {
